@@ -131,6 +131,14 @@ func (c *fctx) checkOrder(n ast.Node) {
 				written[o] = true
 				calls = append(calls, x)
 			}
+			if fn, _ := c.t.calleeOf(x); fn != nil { // [ext:T20] package-level state written by the callee
+				if fi := c.t.funcs[fn]; fi != nil {
+					for g := range fi.gwrites {
+						written[g.obj] = true
+						calls = append(calls, x)
+					}
+				}
+			}
 		}
 		return true
 	})
@@ -327,6 +335,9 @@ func (c *fctx) stmt(s ast.Stmt, en *env, lc *lctx, next kont) string {
 				return fmt.Sprintf("let %s := %s in\n%s", name, g.zero(), rec(i+1, en2))
 			}
 			c.checkOrder(it.val)
+			if g.k == kErr { // [ext:T20] var err error = nil
+				c.markNilAs20(it.val)
+			}
 			return c.expr(it.val, en, func(v string) string {
 				en2, name := c.declare(c.taintCalls(it.val, en), obj, g)
 				en2 = c.noteAlias(it.id, it.val, en2)
@@ -345,6 +356,11 @@ func (c *fctx) stmt(s ast.Stmt, en *env, lc *lctx, next kont) string {
 		}
 		if len(x.Results) != len(c.fi.results) {
 			t.fail(s, "return with %d values in a function with %d results", len(x.Results), len(c.fi.results))
+		}
+		for i, r := range x.Results { // [ext:T20] `return v, nil` in a function with an error result
+			if c.fi.results[i].k == kErr {
+				c.markNilAs20(r)
+			}
 		}
 		return c.args(x.Results, en, func(vs []string) string { return lc.ret(c.retTerm(en, vs)) })
 	case *ast.BranchStmt:
@@ -377,14 +393,20 @@ func (c *fctx) stmt(s ast.Stmt, en *env, lc *lctx, next kont) string {
 
 // retTerm: the value a `return vs` produces: the results, preceded by the receiver when the method writes it.
 func (c *fctx) retTerm(en *env, vs []string) string {
+	var parts []string
 	if c.fi.recv != nil && c.fi.writes {
-		r := en.lookup(c.fi.recv).name
-		if len(vs) == 0 {
-			return r
-		}
-		return "(" + r + ", " + tuple(vs) + ")"
+		parts = append(parts, en.lookup(c.fi.recv).name)
 	}
-	return tuple(vs)
+	for _, g := range c.t.ordered20(c.fi.gwrites) { // [ext:T20] written package-level state is returned
+		parts = append(parts, c.globalName20(g, en, c.fi.decl))
+	}
+	if len(parts) == 0 {
+		return tuple(vs)
+	}
+	if len(vs) > 0 {
+		parts = append(parts, tuple(vs))
+	}
+	return nestPair(parts)
 }
 
 func (c *fctx) assign(x *ast.AssignStmt, en *env, next kont) string {
@@ -459,6 +481,11 @@ func (c *fctx) assign(x *ast.AssignStmt, en *env, next kont) string {
 	}
 	if len(x.Rhs) != len(x.Lhs) {
 		t.fail(x, "assignment")
+	}
+	for i := range x.Lhs { // [ext:T20] err = nil
+		if x.Tok == token.ASSIGN {
+			c.markNil20(x.Rhs[i], x.Lhs[i])
+		}
 	}
 	if len(x.Lhs) > 1 {
 		// tuple assignment: every right-hand side is evaluated before any store; bind them to temporaries
@@ -615,6 +642,14 @@ func (c *fctx) rangeStmt(x *ast.RangeStmt, en *env, lc *lctx, next kont) string 
 		overInt = true
 	} else if t.exprType(x.X).k != kSlice {
 		t.fail(x, "range over %s", tv.Type)
+	} else if t.exprType(x.X).str && !(x.Value == nil && c.asciiConst20(x.X)) { // [ext:T20] ranging over a string decodes runes
+		t.fail(x, "range over a string (only the index form over a constant ASCII string is supported)")
+	}
+	arrLen := int64(-1) // [ext:T20] ranging over an array: the bound is the array length of the type
+	if !overInt {
+		if g := t.exprType(x.X); g.isArr {
+			arrLen = g.arr
+		}
 	}
 	if x.Value != nil && !overInt {
 		if id, ok := x.Value.(*ast.Ident); (!ok || id.Name != "_") && t.exprType(x.X).elem != nil { // [seq]
@@ -635,6 +670,9 @@ func (c *fctx) rangeStmt(x *ast.RangeStmt, en *env, lc *lctx, next kont) string 
 		}
 		if overInt {
 			head = fmt.Sprintf("let %s := %s in\n", n, xs)
+		}
+		if arrLen >= 0 { // [ext:T20]
+			head = fmt.Sprintf("let %s := %s in\nlet %s := %d in\n", rng, xs, n, arrLen)
 		}
 		set := map[types.Object]bool{}
 		t.assigned(x.Body, set)
@@ -707,6 +745,14 @@ func (t *Translator) emitFunc(fi *funcInfo) string {
 		en, name = c.declare(en, fi.recv, fi.recvT)
 		params = append(params, fmt.Sprintf("(%s : %s)", name, fi.recvT.coq()))
 	}
+	for _, g := range t.ordered20(fi.greads) { // [ext:T20] package-level state the function (transitively) touches
+		var name string
+		en, name = c.declare(en, g.obj, g.ty)
+		params = append(params, fmt.Sprintf("(%s : %s)", name, g.ty.coq()))
+	}
+	if fi.frag != nil {
+		return t.emitFrag20(c, fi, en, params)
+	}
 	for i := 0; i < sig.Params().Len(); i++ {
 		p := sig.Params().At(i)
 		g := t.typeOf(p.Type(), fi.decl)
@@ -722,12 +768,18 @@ func (t *Translator) emitFunc(fi *funcInfo) string {
 		rts = append(rts, g.coq())
 	}
 	rt := tupleType(rts)
+	var stateT []string
 	if fi.recv != nil && fi.writes {
-		if len(rts) == 0 {
-			rt = fi.recvT.coq()
-		} else {
-			rt = "(" + fi.recvT.coq() + " * " + rt + ")"
+		stateT = append(stateT, fi.recvT.coq())
+	}
+	for _, g := range t.ordered20(fi.gwrites) { // [ext:T20]
+		stateT = append(stateT, g.ty.coq())
+	}
+	if len(stateT) > 0 {
+		if len(rts) > 0 {
+			stateT = append(stateT, rt)
 		}
+		rt = nestPairType(stateT)
 	}
 	if strings.Contains(rt, " ") && !strings.HasPrefix(rt, "(") {
 		rt = "(" + rt + ")"
